@@ -668,6 +668,36 @@ def impl_encoded_cases(ctx):
     return cases
 
 
+def padded_variants(convs, sizes=(999999, 1000000)):
+    """Conversations whose first request, or first response, is followed inside its frame by zero bytes up to exactly the
+    largest message size the dissector takes and one below it (a frame may be longer than the layout that is decoded from
+    it; what follows is skipped): both exchanges are still reported, with the size the frame declares."""
+    import copy
+    out = []
+    base = [c for c in convs if c["kind"] == "grid-one" and len(c["exch"]) == 2 and c["exch"][0]["supported"]
+            and c["exch"][0]["name"] in ("Metadata", "ApiVersions", "ListOffsets") and c["resp_order"] == [0, 1]]
+    for conv in base[:2]:
+        for side in ("c", "s"):
+            for size in sizes:
+                v = copy.deepcopy(conv)
+                key, at, szk = ("client", "req_at", "req_size") if side == "c" else ("server", "resp_at", "resp_size")
+                data = bytearray.fromhex(v[key])
+                old = v["exch"][0][szk]
+                pad = size - old
+                if pad <= 0:
+                    continue
+                first_end = v[at][0] + 4 + old
+                data[v[at][0]:v[at][0] + 4] = struct.pack(">i", size)
+                data[first_end:first_end] = bytes(pad)
+                v[key] = data.hex()
+                v["exch"][0][szk] = size
+                v[at] = [v[at][0]] + [o + pad for o in v[at][1:]]
+                v["name"] = "%s+%s-padded-to-%d" % (conv["name"], "request" if side == "c" else "response", size)
+                v["kind"] = "padded"
+                out.append(v)
+    return out
+
+
 # --------------------------------------------------------------------------- C01 (Kafka share)
 def c01(ctx):
     """Never panics; what was completely received before the cut is still emitted."""
